@@ -64,8 +64,8 @@ CLAIMED.update({
         tech=TECH_V + '; ' + TECH_K),
     'C16': dict(
         cat='proof', ref='DESIGN 4/C16',
-        text='NVIter::next (instantiated at &[u8], real text) verified by Verus against pair_step for unbounded lengths: a complete pair is returned as two consecutive sub-slices and the iterator advances past it, otherwise None and the suffix is handed back untouched; checked arithmetic never panics. Machine-checked lemmas over the decoder specification: prefix monotonicity, fusedness, consumed-prefix law, count <= len/2, one-pair decoding. VarInt laws by complete Kani harnesses.',
-        note='nv::write, &[u8]/&mut [u8] agreement and size_hint are bounded Kani stand-ins (names <= 3 bytes plus the 127/128 boundary; inputs <= 9 bytes), listed under coverage.bounded and not counted as proved. InvalidInput for lengths > 2^31-1 is covered only through VarInt::try_from (a 2 GiB slice cannot be built).',
+        text='NVIter::next and size_hint (real text, instantiated at &[u8] and at &mut [u8]: both run the same extracted code against the same clauses, so the shared and the exclusive variant agree) and the Bytes impls for both slice kinds verified by Verus against pair_step for unbounded lengths: a complete pair is returned as two consecutive sub-slices and the iterator advances past it, otherwise None and the suffix is handed back untouched; checked arithmetic never panics. Machine-checked lemmas over the decoder specification: prefix monotonicity, fusedness, consumed-prefix law, count <= len/2, one-pair decoding. VarInt laws by complete Kani harnesses.',
+        note='nv::write is a bounded Kani stand-in (the &[u8]/&mut [u8] agreement harness is kept as an additional bounded cross-check) (names <= 3 bytes plus the 127/128 boundary; inputs <= 9 bytes), listed under coverage.bounded and not counted as proved. InvalidInput for lengths > 2^31-1 is covered only through VarInt::try_from (a 2 GiB slice cannot be built).',
         tech=TECH_V + '; ' + TECH_K),
 })
 
